@@ -21,7 +21,9 @@ from lib import gobuild, tlc, tracecheck
 from lib.core import Inconclusive, VERIF, sh, env_go
 
 SPEC = "Selector"
-ORACLE_CFG = "Oracle.cfg"
+# many short TLC runs on a shared machine: keep each JVM's helper threads few (GC, JIT); the launcher reads this
+os.environ.setdefault("JDK_JAVA_OPTIONS", "-XX:ParallelGCThreads=2 -XX:CICompilerCount=2")
+ORACLE_CFG = "Oracle_run.cfg"
 
 # generation groups: name -> (cfg substitutions, strategies in shards, weighted modes, window sizes)
 GROUPS = {
@@ -34,10 +36,10 @@ GROUPS = {
 }
 # families: which groups feed which real selectors
 FAMILIES = {
-    "plain": dict(shards=[["rr", "random", "modhash"], ["conhash", "conhashd"]], wt="0",
-                  k={"rr": 8, "random": 12, "modhash": 8, "conhash": 16}),
+    "plain": dict(shards=[["rr", "random", "modhash"], ["conhash", "conhashd"]], quick_shards=[["rr", "random"], ["modhash", "conhash"]],
+                  wt="0", k={"rr": 8, "random": 12, "modhash": 8, "conhash": 12}),
     "weighted": dict(shards=[["rr"], ["random", "modhash"]], wt="1",
-                     k={"rr": 45, "random": 20, "modhash": 45, "conhash": 16}),
+                     k={"rr": 40, "random": 16, "modhash": 32, "conhash": 16}),
     "conhash-weights": dict(shards=[["conhash", "conhashd"]], wt="1",
                             k={"rr": 8, "random": 8, "modhash": 8, "conhash": 32}),
 }
@@ -47,7 +49,9 @@ _tlc_slots = threading.Semaphore(4)      # at most 4 TLC processes at a time (sh
 
 def tlc_run(ctx, *a, **kw):
     with _tlc_slots:
-        return tlc.run(ctx, *a, **kw)
+        r = tlc.run(ctx, *a, **kw)
+    ctx.log("tlc %s: %.1fs" % (kw.get("name"), r.wall))
+    return r
 
 
 def tmpl(name, **kw):
@@ -100,7 +104,8 @@ WVERDICT_RE = re.compile(r'<<\s*(\d+),\s*<<\s*"([^"]*)",\s*"([^"]*)"\s*>>\s*>>')
 def oracle(ctx, name, scripts_text, obs, wrecs):
     """Run Oracle_Selector; returns ({obs index -> (pstep, pclass, rstep, rclass)}, {wrec index -> (p, r)}, TLCResult)."""
     r = tlc_run(ctx, SPEC, "Oracle_Selector", cfg=ORACLE_CFG, workers=1, timeout=1500, name="oracle-" + name,
-                extra_files={"scripts.ndjson": scripts_text, "obs.ndjson": dump_nd(obs), "wrecs.ndjson": dump_nd(wrecs)})
+                extra_files={"scripts.ndjson": scripts_text, "obs.ndjson": dump_nd(obs), "wrecs.ndjson": dump_nd(wrecs),
+                             ORACLE_CFG: tmpl("Oracle.cfg.tmpl", RFULL="FALSE" if ctx.quick else "TRUE")})
     flat = re.sub(r"<<\s+", "<<", " ".join(r.out.split()))
     m = re.search(r'<<"STATS", (\d+), (\d+), (\d+)>>', flat)
     if not r.success or not m or '<<"NOTOK",' not in flat or '<<"WNOTOK",' not in flat:
@@ -203,21 +208,11 @@ def run(ctx):
 
     pool = ThreadPoolExecutor(max_workers=12)
 
-    # ---- 1. model checking of the design
-    mc_cfgs = ctx.pick(["rr_plain", "rr_weighted_q", "rr_degenerate_q", "others_q", "conhash_q"],
-                       ["rr_plain", "rr_weighted_q", "rr_degenerate_q", "others_q", "conhash_q",
-                        "rr_weighted", "rr_degenerate", "others", "conhash"])
-    mc_f = {c: pool.submit(tlc_run, ctx, SPEC, "MC_Selector", cfg="MC_%s.cfg" % c, workers=ctx.pick(3, 4), timeout=1500,
-                           name="mc-" + c) for c in mc_cfgs}
-    wcfg = ctx.pick("weights13", "weights20")
-    mc_f[wcfg] = pool.submit(tlc_run, ctx, SPEC, "MC_Weights", cfg="MC_%s.cfg" % wcfg, workers=ctx.pick(2, 4), timeout=1500,
-                             name="mc-" + wcfg)
-
     # ---- 2. histories (B2): TLC enumerates, the driver applies, TLC judges
     plan = ctx.pick(
-        {"plain": [("plain3", 4, None), ("plain4", 3, None), ("plain4", 8, 150)],
-         "weighted": [("weighted", 3, None), ("weighted", 6, 100)],
-         "conhash-weights": [("conhash-weights", 3, None), ("conhash-weights-free", 6, 100)]},
+        {"plain": [("plain3", 4, None), ("plain4", 3, None), ("plain4", 8, 200)],
+         "weighted": [("weighted", 3, None)],
+         "conhash-weights": [("conhash-weights", 3, None)]},
         {"plain": [("plain3", 5, None), ("plain4", 4, None), ("plain4", 9, 4000)],
          "weighted": [("weighted", 3, None), ("weighted-canon", 4, None), ("weighted", 7, 3000)],
          "conhash-weights": [("conhash-weights", 4, None), ("conhash-weights-free", 7, 3000)]})
@@ -225,6 +220,16 @@ def run(ctx):
     for fam, gl in plan.items():
         for k, (g, d, sim) in enumerate(gl):
             gen_f[(fam, k)] = pool.submit(generate, ctx, g, d, sim, ctx.seed * 1000 + k)
+
+    # ---- 1. model checking of the design
+    mc_cfgs = ctx.pick(["rr_plain", "rr_weighted_q", "rr_degenerate_q", "others_q"],
+                       ["rr_plain", "rr_weighted_q", "rr_degenerate_q", "others_q", "conhash_q",
+                        "rr_weighted", "rr_degenerate", "others", "conhash"])
+    mc_f = {c: pool.submit(tlc_run, ctx, SPEC, "MC_Selector", cfg="MC_%s.cfg" % c, workers=ctx.pick(3, 4), timeout=1500,
+                           name="mc-" + c) for c in mc_cfgs}
+    wcfg = ctx.pick("weights13", "weights20")
+    mc_f[wcfg] = pool.submit(tlc_run, ctx, SPEC, "MC_Weights", cfg="MC_%s.cfg" % wcfg, workers=ctx.pick(2, 4), timeout=1500,
+                             name="mc-" + wcfg)
 
     # B3 vectors (python enumerates the inputs; the judgement is TLC's)
     S = [-200, -101, -100, -99, -1, 0, 1, 2, 3, 9, 10, 11, 99, 100, 101, 1000]
@@ -306,11 +311,12 @@ def run(ctx):
         sp = os.path.join(hdir, "scripts-%s.ndjson" % fam)
         stext = dump_nd(scripts)
         open(sp, "w").write(stext)
-        strats = [s for sh_ in F["shards"] for s in sh_]
+        shards = F.get("quick_shards", F["shards"]) if ctx.quick else F["shards"]
+        strats = [s for sh_ in shards for s in sh_]
         sh([exe, "hist", "-in", sp, "-out", os.path.join(hdir, "obs-" + fam), "-strats", ",".join(strats), "-wt", F["wt"],
             "-k-rr", str(F["k"]["rr"]), "-k-random", str(F["k"]["random"]), "-k-modhash", str(F["k"]["modhash"]),
             "-k-conhash", str(F["k"]["conhash"]), "-par", "12"], timeout=1500)
-        for sh_ in F["shards"]:
+        for sh_ in shards:
             obs = []
             for s in sh_:
                 obs.extend(read_nd(os.path.join(hdir, "obs-%s.%s" % (fam, s))))
@@ -349,9 +355,10 @@ def run(ctx):
     wc["out"][0] = next(x for x in wc["out"] if x != wc["out"][0])   # one slot moved to another endpoint
     wrecs_ext = wrecs + [wc]
 
-    orc_f = []
-    for k, (name, fam, stext, obs) in enumerate(shard_jobs):
-        orc_f.append(pool.submit(oracle, ctx, name, stext, obs0_ext if k == 0 else obs, wrecs_ext if k == len(shard_jobs) - 1 else []))
+    orc_f = [None] * len(shard_jobs)
+    for k in sorted(range(len(shard_jobs)), key=lambda k: -sum(len(o["sel"]) for r in shard_jobs[k][3] for o in r["obs"])):
+        name, fam, stext, obs = shard_jobs[k]           # the most expensive shard first
+        orc_f[k] = pool.submit(oracle, ctx, name, stext, obs0_ext if k == 0 else obs, wrecs_ext if k == len(shard_jobs) - 1 else [])
 
     # ---- 3b. traces -> TLC
     def prep_traces(path):
@@ -374,7 +381,7 @@ def run(ctx):
         key, out = f.result()
         trace_sets[key] = prep_traces(out)
     all_runs = [(key, i, t) for key, ts in sorted(trace_sets.items()) for i, t in enumerate(ts)]
-    nsh = ctx.pick(3, 4)
+    nsh = ctx.pick(2, 4)
     tr_cfg = open(os.path.join(VERIF, "spec", SPEC, "Trace.cfg")).read()
 
     def val(k):
@@ -384,10 +391,45 @@ def run(ctx):
         return mine, acc, fails, st
 
     def val_locked(k):
+        import time
         with _tlc_slots:
-            return val(k)
+            t0 = time.time()
+            res = val(k)
+        ctx.log("tlc trace-%d: %.1fs" % (k, time.time() - t0))
+        return res
 
     tr_f = [pool.submit(val_locked, k) for k in range(nsh)]
+
+    # self-test of the trace binding: a Select result replaced by a host that never was a member; a burst on one host
+    cand = None
+    for key, i, t in all_runs:
+        if key[0] == "rr" and not key[2]:
+            idx = [k for k, e in enumerate(t) if e["e"] == "E" and e["r"] > 0]
+            if idx and all(not e.get("p") for e in t):
+                cand = (t, idx[len(idx) // 2])
+                break
+    if cand is None:
+        raise Inconclusive("no trace suitable for the trace self-test")
+    t, k = cand
+    bad_t = [dict(e) for e in t]
+    g = bad_t[k]["g"]
+    bad_t[k]["r"] = 9
+    for j in range(k - 1, -1, -1):
+        if bad_t[j]["e"] == "B" and bad_t[j]["g"] == g:
+            bad_t[j]["r"] = 9
+            break
+    st_traces = {"trace-select-result-non-member": bad_t}
+    bad_b = [dict(e) for e in t]
+    if bad_b[-1]["e"] == "Burst" and len(set(bad_b[-1]["sel"])) >= 2:
+        bad_b[-1]["sel"] = [bad_b[-1]["sel"][0]] * len(bad_b[-1]["sel"])
+        st_traces["trace-burst-single-host"] = bad_b
+
+    def st_val(label):
+        with _tlc_slots:
+            acc, fails, _ = tracecheck.validate(ctx, SPEC, "Trace_Selector", tr_cfg, [st_traces[label]], name="selftest-" + label, timeout=300)
+        return bool(fails)
+
+    st_tr_f = {label: pool.submit(st_val, label) for label in st_traces}
 
     # ---- collect: model checking
     mc = {}
@@ -421,7 +463,7 @@ def run(ctx):
         for rec in obs:
             nsel += sum(len(o["sel"]) for o in rec["obs"])
             distinct.add((rec["s"], rec["wt"], fam, rec["i"]))
-        for idx, (ps, pc, rs, rc) in sorted(bad.items()):
+        for idx, (ps, pc, rs, rc) in sorted(bad.items(), key=lambda kv: (kv[1][0], kv[0])):   # shortest history first
             rec = obs[idx]
             ops = scripts[rec["i"]]["ops"]
             sn = sname(rec["s"], rec["wt"])
@@ -507,40 +549,10 @@ def run(ctx):
     if overlap == 0:
         raise Inconclusive("the concurrent scenario produced no overlapping operations (vacuous)")
 
-    # self-test of the trace binding: a Select result replaced by a host that never was a member
-    cand = None
-    for key, i, t in all_runs:
-        if key[0] == "rr" and not key[2]:
-            idx = [k for k, e in enumerate(t) if e["e"] == "E" and e["r"] > 0]
-            if idx and all(not e.get("p") for e in t):
-                cand = (t, idx[len(idx) // 2])
-                break
-    if cand is None:
-        raise Inconclusive("no trace suitable for the trace self-test")
-    t, k = cand
-    bad_t = [dict(e) for e in t]
-    g = bad_t[k]["g"]
-    bad_t[k]["r"] = 9
-    for j in range(k - 1, -1, -1):
-        if bad_t[j]["e"] == "B" and bad_t[j]["g"] == g:
-            bad_t[j]["r"] = 9
-            break
-    bad_b = [dict(e) for e in t]
-    if bad_b[-1]["e"] == "Burst" and len(set(bad_b[-1]["sel"])) >= 2:
-        bad_b[-1]["sel"] = [bad_b[-1]["sel"][0]] * len(bad_b[-1]["sel"])
-    else:
-        bad_b = None
-    with _tlc_slots:
-        acc, fails, _ = tracecheck.validate(ctx, SPEC, "Trace_Selector", tr_cfg, [bad_t], name="selftest-trace", timeout=300)
-    st_res["trace-select-result-non-member"] = "rejected" if fails else "ACCEPTED"
-    if not fails:
-        raise Inconclusive("binding self-test failed: corrupted trace was accepted")
-    if bad_b is not None:
-        with _tlc_slots:
-            acc, fails, _ = tracecheck.validate(ctx, SPEC, "Trace_Selector", tr_cfg, [bad_b], name="selftest-burst", timeout=300)
-        st_res["trace-burst-single-host"] = "rejected" if fails else "ACCEPTED"
-        if not fails:
-            raise Inconclusive("binding self-test failed: corrupted burst was accepted")
+    for label, f in st_tr_f.items():
+        st_res[label] = "rejected" if f.result() else "ACCEPTED"
+        if st_res[label] != "rejected":
+            raise Inconclusive("binding self-test failed: corrupted trace (%s) was accepted" % label)
 
     # ---- race detector: an observation
     race_reports = []
